@@ -237,7 +237,7 @@ def keys_part(rep):
     ob = di = 0
     cand = []
     for name, item in TG['corpus'].items():
-        if name.startswith(('R', 'E')):          # symbolic renames: literals_part / C11
+        if name in ('R1', 'R2', 'R3', 'R4', 'E1', 'E2', 'E3', 'E4', 'E5'):          # symbolic renames: literals_part / type_name_part / C11
             continue
         ty = c07.type_text(name, item)
         ex = Explorer()
